@@ -192,6 +192,51 @@ impl Prop for C16 {
             let gs = gensrc::GenSource { format: Format::Ecl, game: tc::game(g), text: src.to_string(), maps: vec![] };
             if let Some(b) = compile_seed(&gs) { seeds.push((Format::Ecl, tc::game(g), b, "stack-ecl".into())); }
         }
+        // small files with jumps (loops), every aligned dword of the WHOLE file set to values that are no instruction
+        // boundary (1, 2, 3, 5, 6, 7, length - 2, -3): jump offsets and times, sizes, counts.  A jump into the middle
+        // of an instruction must end in a diagnostic under every decompile option, also when the jump is an intrinsic.
+        {
+            let anm_head = "entry { path: \"a.png\", has_data: false, img_width: 16, img_height: 16, img_format: 3, rt_width: 16, rt_height: 16, sprites: {} }\n";
+            let mut small: Vec<(Format, &str, String)> = vec![];
+            for g in ["th06", "th08", "th12", "th17"] { small.push((Format::Anm, g, format!("{anm_head}script s {{\n    ins_1();\n    loop {{\n+5:\n        ins_1();\n    }}\n}}\n"))); }
+            for g in ["th12", "th17"] { small.push((Format::Anm, g, format!("{anm_head}script s {{\n    $REG[10000] = 3;\nl:\n    ins_1();\n    if (--$REG[10000]) goto l;\n    if ($REG[10001] == 2) goto l;\n}}\n"))); }
+            for g in ["th07", "th08"] { small.push((Format::Ecl, g, "script timeline0 { }\nvoid sub0() {\n    ins_0();\n    loop {\n+5:\n        ins_0();\n    }\n}\n".to_string())); }
+            for g in ["th08", "th12"] { small.push((Format::Std, g, format!("meta {{ unknown: 0, {}, objects: {{}}, instances: [] }}\nscript main {{\n    loop {{\n+5:\n        ins_0();\n    }}\n}}\n", if g == "th08" { "stage_name: \"dm\", bgm: [{path: \" \", name: \" \"}, {path: \" \", name: \" \"}, {path: \" \", name: \" \"}, {path: \" \", name: \" \"}]" } else { "anm_path: \"a.anm\"" }))); }
+            for (format, g, text) in small {
+                let gs = gensrc::GenSource { format, game: tc::game(g), text, maps: vec![] };
+                let Some(bytes) = compile_seed(&gs) else { continue };
+                if bytes.len() > 1200 { continue; }
+                for i in 0..bytes.len() / 4 {
+                    for v in [1u32, 2, 3, 5, 6, 7, (bytes.len() as u32).wrapping_sub(2), 0xffff_fffd] {
+                        let mut mb = bytes.clone();
+                        mb[4 * i..4 * i + 4].copy_from_slice(&v.to_le_bytes());
+                        for bits in [0u32, 2] {   // default options, and --no-intrinsics
+                            out.push(Case::search(Sexp::app("readfile", vec![Sexp::atom(format.name()), Sexp::atom(g), Sexp::int(bits as i64), Sexp::atom(hex(&mb))])).tag(format!("file-jump-sweep-{}", format.name())));
+                        }
+                    }
+                }
+            }
+        }
+        // embedded images whose THTX size field claims 1-3 bytes more than the image needs (the bytes are there):
+        // extraction must refuse or ignore them for every colour format
+        {
+            for g in ["th08", "th12"] {
+                for fmt in [1, 3, 5, 7] {
+                    let text = format!("entry {{ path: \"a.png\", has_data: \"dummy\", img_width: 4, img_height: 4, img_format: {fmt}, rt_width: 4, rt_height: 4, sprites: {{}} }}\nscript s {{ }}\n");
+                    let gs = gensrc::GenSource { format: Format::Anm, game: tc::game(g), text, maps: vec![] };
+                    let Some(bytes) = compile_seed(&gs) else { continue };
+                    let Some(p) = (0..bytes.len().saturating_sub(16)).rev().find(|&p| &bytes[p..p + 4] == b"THTX") else { continue };
+                    let size = u32::from_le_bytes([bytes[p + 12], bytes[p + 13], bytes[p + 14], bytes[p + 15]]);
+                    for extra in [1u32, 2, 3, 4] {
+                        let mut mb = bytes.clone();
+                        mb[p + 12..p + 16].copy_from_slice(&(size + extra).to_le_bytes());
+                        let at = (p + 16 + size as usize).min(mb.len());
+                        for _ in 0..extra { mb.insert(at, 0xAB); }
+                        out.push(Case::search(Sexp::app("readfile", vec![Sexp::atom("anm"), Sexp::atom(g), Sexp::int(0), Sexp::atom(hex(&mb))])).tag("file-thtx-oversize"));
+                    }
+                }
+            }
+        }
         // header sweep: every one of the first 24 dwords of every seed file set to all-ones / i32::MAX
         // (counts, sizes and offsets live there; a reader must not trust them with an allocation or an index)
         for (format, game, bytes, _) in &seeds {
